@@ -459,7 +459,6 @@ def load(val: _T) -> PythonValueT | _T:
     return strload(val) if inspection.istexttype(val.__class__) else val  # type: ignore[arg-type]
 
 
-@compat.lru_cache(maxsize=100_000)
 def strload(val: str | bytes | bytearray | memoryview) -> PythonValueT:
     """Attempt to decode a string-like input into a Python value.
 
@@ -482,6 +481,14 @@ def strload(val: str | bytes | bytearray | memoryview) -> PythonValueT:
     Args:
         val: The string-like input to be decoded.
     """
+    # The decoder is memoized, so the input must be hashable.
+    if isinstance(val, (bytearray, memoryview)):
+        val = bytes(val)
+    return _strload(val)
+
+
+@compat.lru_cache(maxsize=100_000)
+def _strload(val: str | bytes) -> PythonValueT:
     with contextlib.suppress(ValueError):
         return compat.json.loads(val)
 
